@@ -1,14 +1,83 @@
-import CodeLimit.Model.Pattern
-import CodeLimit.Spec.Regex
+import CodeLimit.Lemmas.EngineCorrect
 /-!
 # C13 - the pattern engine implements regular-expression semantics
 
-Property theorems only (helper lemmas live in `CodeLimit/Lemmas`). Quantified over every
-pattern `r`, every word `w`, every id base (`State._id` counter value) and every
-set-iteration order `ord`.
+Property theorems only (helper lemmas live in `CodeLimit/Lemmas`). Every theorem is
+quantified over every pattern `r` (atoms, sequence, alternation, optional, zero-or-more,
+one-or-more, nested in any way), every input word `w`, every value `base` of the global state
+id counter and every set-iteration order `ord` (`IsOrder ord`: the order yields each element
+exactly once). Atoms are `Identity` predicates over an alphabet with decidable equality, so
+they are pairwise disjoint, as the property requires. `Lang r` is the regular language of `r`
+(`CodeLimit/Spec/Regex.lean`).
 -/
 namespace CL.C13
 
-theorem placeholder : True := trivial
+variable {α : Type} [DecidableEq α]
+
+/-- Building a matcher terminates for every pattern, including repetitions of patterns that
+can match nothing (`star (opt x)`, `plus (opt x)`, `star (star x)`): the ε-closure fuel
+(`mem_closure_iff` holds for the fuel given in the model) and the subset-construction fuel
+are always sufficient. -/
+theorem build_terminates (r : Rx α) (base : Nat) {ord : List α → List α} (hord : IsOrder ord) :
+    ∃ D, nfaToDfa (compile r base) ord = some D :=
+  compile_terminates r base hord
+
+omit [DecidableEq α] in
+/-- ε-closure computes exactly ε-reachability (in particular it terminates on ε-cycles). -/
+theorem closure_exact (E : List (Edge α)) (qs : List Nat) (q : Nat) :
+    q ∈ closure E qs ↔ ∃ p, p ∈ qs ∧ EpsReach E p q :=
+  mem_closure_iff E qs q
+
+omit [DecidableEq α] in
+/-- The Thompson NFA of a pattern accepts exactly the pattern's language. -/
+theorem nfa_language (r : Rx α) (base : Nat) (w : List α) :
+    Path (compile r base).edges (compile r base).start w (compile r base).acc ↔ Lang r w :=
+  thompson_correct r base w
+
+/-- A full match is reported exactly when the word belongs to the language ... -/
+theorem match_iff (r : Rx α) (base : Nat) {ord : List α → List α} (hord : IsOrder ord) (w : List α) :
+    matchFull r base ord w = .ok (some w.length) ↔ Lang r w :=
+  matchFull_some_iff r base hord w
+
+/-- ... and `None` is returned exactly when it does not; ... -/
+theorem no_match_iff (r : Rx α) (base : Nat) {ord : List α → List α} (hord : IsOrder ord) (w : List α) :
+    matchFull r base ord w = .ok none ↔ ¬ Lang r w :=
+  matchFull_none_iff r base hord w
+
+/-- ... there is no third outcome (no ambiguity error, no other end position). -/
+theorem match_total (r : Rx α) (base : Nat) {ord : List α → List α} (hord : IsOrder ord) (w : List α) :
+    matchFull r base ord w = .ok (some w.length) ∨ matchFull r base ord w = .ok none :=
+  matchFull_total r base hord w
+
+/-- Prefix matching reports the shortest non-empty matching prefix. -/
+theorem starts_with_shortest (r : Rx α) (base : Nat) {ord : List α → List α} (hord : IsOrder ord)
+    (w : List α) (k : Nat) :
+    startsWith r base ord w = .ok (some k) ↔
+      (1 ≤ k ∧ k ≤ w.length ∧ Lang r (w.take k) ∧ ∀ j, 1 ≤ j → j < k → ¬ Lang r (w.take j)) :=
+  startsWith_some_iff r base hord w k
+
+/-- Prefix matching reports nothing exactly when no non-empty prefix matches. -/
+theorem starts_with_none (r : Rx α) (base : Nat) {ord : List α → List α} (hord : IsOrder ord)
+    (w : List α) :
+    startsWith r base ord w = .ok none ↔ ∀ k, 1 ≤ k → k ≤ w.length → ¬ Lang r (w.take k) :=
+  startsWith_none_iff r base hord w
+
+/-- The non-deterministic matcher agrees with the same semantics. -/
+theorem nfa_match_iff (r : Rx α) (base : Nat) (w : List α) :
+    nfaMatch r base w = true ↔ Lang r w :=
+  nfaMatch_iff r base w
+
+/-- Hence the deterministic and the non-deterministic matcher agree on every input. -/
+theorem dfa_nfa_agree (r : Rx α) (base : Nat) {ord : List α → List α} (hord : IsOrder ord) (w : List α) :
+    (matchFull r base ord w = .ok (some w.length)) ↔ nfaMatch r base w = true := by
+  rw [match_iff r base hord, nfa_match_iff]
+
+/-! ## non-vacuity: concrete patterns with nested repetitions of nullable patterns -/
+
+example : matchFull (.star (.opt (.atom 1))) 1 id [1, 1] = .ok (some 2) := by decide +kernel
+example : matchFull (.plus (.opt (.atom 1))) 7 id [] = .ok (some 0) := by decide +kernel
+example : startsWith (.cat (.atom 1) (.star (.atom 2))) 1 id [1, 2, 2] = .ok (some 1) := by decide +kernel
+example : IsOrder (id : List Nat → List Nat) := fun _ => List.Perm.refl _
+example : IsOrder (List.reverse : List Nat → List Nat) := fun l => List.reverse_perm l
 
 end CL.C13
